@@ -18,12 +18,12 @@ def M(cfg, kind, **kw):
     return dict(mode="mc", cfg=cfg, kind=kind, **kw)
 
 
-def SE(cfg, n, rate=1.0, **kw):
-    return dict(mode="edge", cfg=cfg, kind="counter", n=n, rate=rate, tool="syncreplay", dump_module="OrdaSyncDump.tla", **kw)
+def SE(cfg, n, rate=1.0, kind="counter", **kw):
+    return dict(mode="edge", cfg=cfg, kind=kind, n=n, rate=rate, tool="syncreplay", dump_module="OrdaSyncDump.tla", **kw)
 
 
-def SS(cfg, n, num, depth, **kw):
-    return dict(mode="sim", cfg=cfg, kind="counter", n=n, num=num, depth=depth, tool="syncreplay", dump_module="OrdaSyncDump.tla", **kw)
+def SS(cfg, n, num, depth, kind="counter", **kw):
+    return dict(mode="sim", cfg=cfg, kind=kind, n=n, num=num, depth=depth, tool="syncreplay", dump_module="OrdaSyncDump.tla", **kw)
 
 
 def SM(cfg, **kw):
@@ -59,9 +59,15 @@ def jobs(prop, tier):
     if prop == "C05":
         if q:
             return [SE("sync_basic_edge", 2, rate=0.1), SE("sync_sc_edge", 2, rate=0.1), SE("sync_3_edge", 3, rate=0.005),
-                    SS("sync_sim", 3, 40, 60)]
-        return [SM("sync_basic"), SM("sync_sc"), SM("sync_3"), SM("sync_big"), SE("sync_basic_edge", 2), SE("sync_sc_edge", 2),
-                SE("sync_3_edge", 3, rate=0.05), SS("sync_sim", 3, 600, 80)]
+                    SS("sync_sim", 3, 40, 60),
+                    # the same protocol histories with a List (tagged inserts at head / middle): the order of the
+                    # elements at settled points depends on the clocks the clients carry through their entry
+                    SE("sync_join_edge", 2, rate=0.08, kind="list"), SE("sync_sc_edge", 2, rate=0.03, kind="list"),
+                    SE("sync_3_edge", 3, rate=0.003, kind="list"), SS("sync_sim", 3, 20, 60, kind="list")]
+        return [SM("sync_basic"), SM("sync_sc"), SM("sync_3"), SM("sync_big"), SM("sync_join"), SE("sync_basic_edge", 2), SE("sync_sc_edge", 2),
+                SE("sync_3_edge", 3, rate=0.05), SS("sync_sim", 3, 600, 80),
+                SE("sync_join_edge", 2, kind="list"), SE("sync_sc_edge", 2, kind="list"), SE("sync_basic_edge", 2, kind="list"),
+                SE("sync_3_edge", 3, rate=0.05, kind="list"), SS("sync_sim", 3, 400, 80, kind="list")]
     if prop == "C06":
         if q:
             return [SE("sync_basic_edge", 2, rate=0.08), SE("sync_3_edge", 3, rate=0.004), SE("sync_faults_edge", 2, rate=0.004),
